@@ -273,7 +273,8 @@ class SelectionContainers(Facet):
         return st.integers(2, 9).flatmap(
             lambda n: st.builds(
                 lambda vectors, step, kk, seed: {"vectors": vectors, "step": step, "k": 1 + kk % n, "seed": seed},
-                st.lists(st.lists(st.integers(0, 5), min_size=2, max_size=2), min_size=n, max_size=n),
+                # (an objective may be NaN - written "nan" in the JSON case - for some individuals)
+                st.lists(st.lists(st.one_of(st.integers(0, 5), st.integers(0, 5), st.integers(0, 5), st.just("nan")), min_size=2, max_size=2), min_size=n, max_size=n),
                 comp,
                 st.integers(0, 8),
                 st.integers(0, 2**31),
@@ -293,9 +294,11 @@ class SelectionContainers(Facet):
         rep = TableRep()
         problem = MultiObjectiveProblem([False, True], lambda p: list(p[1]))
         ev = SequentialEvaluator()
-        inds = [Individual((i, tuple(v)), rep) for i, v in enumerate(case["vectors"])]
+        inds = [Individual((i, tuple(float(x) if isinstance(x, str) else x for x in v)), rep) for i, v in enumerate(case["vectors"])]
         ev.evaluate(problem, inds)
         given = list(inds)
+        if any(isinstance(x, str) for v in case["vectors"] for x in v):
+            rec.label("with-NaN-objective")
         before = [id(x) for x in given]
         fit_before = [tuple(x.get_fitness(problem).fitness_components) for x in given]
         rec.label(*["has:" + k for k in sorted(_kinds(case["step"]))])
